@@ -1,6 +1,148 @@
-(* C19 - xarray datasets label results with the right dimensions and coordinates (statements only). *)
-From Verif Require Import Base.Prelude Model.MapSpec Model.XrLabel Model.XrLabelSpec.
+(* C19 - xarray datasets label results with the right dimensions and coordinates.
+   Only statements here; every proof is `exact <lemma>` into Proofs/XrLabelFacts.v (witnesses by vm_compute).
+   The model (Model/XrLabel.v) mirrors trace_dependencies/_trace_dependencies/mapspec_axes/_xarray/
+   _xarray_dataset after the repairs eb90cd5 and 3e7da28; xarray/pandas object construction is library
+   behaviour that is observed by the correspondence harness and not modelled. *)
+From Verif Require Import Base.Prelude Base.StrUtil Base.Index Base.NdArr Model.MapSpec Model.MapSpecSpec
+  Model.MapRun Model.MapDenote Model.SymBody Model.XrLabel Model.XrLabelSpec
+  Proofs.StrFacts Proofs.MapSpecFacts Proofs.XrLabelFacts Corr.Run_C19.
 
-Theorem C19_placeholder : forall specs : list mapspec, all_aspecs specs = all_aspecs specs.
-Proof. reflexivity. Qed.
-Print Assumptions C19_placeholder.
+(* Hypotheses shared by the theorems (all enforced by Pipeline construction):
+     NoDup (out_names specs)               every array is the output of at most one function,
+     consistent (all_aspecs specs) = true  validate_consistent_axes,
+     no_colon_axes a                       outputs carry no ':' (MapSpec.__post_init__). *)
+
+(* each MapSpec output is a variable whose dimensions are its MapSpec axes in order *)
+Theorem C19_dims_are_axes : forall specs ms a,
+  consistent (all_aspecs specs) = true -> In ms specs -> In a (outs ms) -> no_colon_axes a ->
+  dims_of specs (aname a) = Ok (indices a).
+Proof. exact dims_are_axes. Qed.
+Print Assumptions C19_dims_are_axes.
+
+(* the traced dependencies are exactly the arrays carried to o along k through element-wise functions
+   (`carried` is the declarative reading; trace_dep the mirrored recursion with its dicts and sorting) *)
+Theorem C19_trace_is_carried : forall specs, NoDup (out_names specs) ->
+  forall fuel o d, trace_dep fuel specs o = Ok d ->
+  forall k x, (exists l, dget str_eqb d k = Some l /\ In x l) <-> In x (carried fuel specs o k).
+Proof. exact trace_dep_carried. Qed.
+Print Assumptions C19_trace_is_carried.
+
+(* a one-dimensional root input x (or, with load_intermediate, any visible one-dimensional source) mapped
+   along axis k - possibly through intermediate element-wise functions - appears on no other axis:
+   every coordinate of o that has x as a source lies on exactly (k,) *)
+Theorem C19_coord_on_exact_axis : forall specs inputs loadable li o k,
+  NoDup (out_names specs) -> consistent (all_aspecs specs) = true ->
+  forall cs x,
+  one_dimensional specs x -> visible inputs li x = true ->
+  In x (carried (trace_fuel specs) specs o k) ->
+  coords_of specs inputs loadable li o = Ok cs ->
+  forall c, In c cs -> In x (co_srcs c) -> co_axes c = [k].
+Proof. exact coord_only_on_axis. Qed.
+Print Assumptions C19_coord_on_exact_axis.
+
+(* ... and it does appear: some coordinate of o lies on (k,) and has x as a source.
+   Partial: needs that the coordinate names written for o do not collide (dict assignment
+   `coords[name] = ...` would overwrite); C19_coord_names_distinct discharges this for ':'-free names.
+   Full statement: the same without the NoDup hypothesis. *)
+Theorem C19_coord_on_exact_axis_exists_partial : forall specs inputs loadable li o k,
+  NoDup (out_names specs) -> consistent (all_aspecs specs) = true ->
+  forall cs x,
+  one_dimensional specs x -> visible inputs li x = true ->
+  In x (carried (trace_fuel specs) specs o k) ->
+  (forall raw, coords_raw_of specs inputs loadable li o = Ok raw -> NoDup (map co_name raw)) ->
+  coords_of specs inputs loadable li o = Ok cs ->
+  exists c, In c cs /\ co_axes c = [k] /\ In x (co_srcs c).
+Proof. exact coord_on_axis. Qed.
+Print Assumptions C19_coord_on_exact_axis_exists_partial.
+
+(* zipped inputs are combined into ONE coordinate whose name is the ":"-join of all its levels *)
+Theorem C19_zipped_multiindex_partial : forall specs inputs loadable li o k,
+  NoDup (out_names specs) -> consistent (all_aspecs specs) = true ->
+  forall cs x z,
+  one_dimensional specs x -> visible inputs li x = true ->
+  one_dimensional specs z -> visible inputs li z = true ->
+  In x (carried (trace_fuel specs) specs o k) -> In z (carried (trace_fuel specs) specs o k) ->
+  x <> z ->
+  (forall raw, coords_raw_of specs inputs loadable li o = Ok raw -> NoDup (map co_name raw)) ->
+  coords_of specs inputs loadable li o = Ok cs ->
+  exists c, In c cs /\ co_axes c = [k] /\ In x (co_srcs c) /\ In z (co_srcs c)
+            /\ co_name c = join (s ":") (co_srcs c).
+Proof. exact zipped_multiindex. Qed.
+Print Assumptions C19_zipped_multiindex_partial.
+
+(* outputs without a MapSpec are assigned as plain variables and never as labelled DataArrays *)
+Theorem C19_unmapped_outputs_plain : forall specs inputs outputs li ds,
+  dataset_vars specs inputs outputs li = Ok ds ->
+  (forall o, In o outputs -> ~ In o (out_names specs) ->
+     In o (ds_plain ds) /\ ~ In o (map da_name (ds_arrays ds)) /\ ~ In o (ds_dropped ds))
+  /\ (forall o, In o (ds_plain ds) -> In o outputs /\ ~ In o (out_names specs)).
+Proof. exact unmapped_outputs_plain. Qed.
+Print Assumptions C19_unmapped_outputs_plain.
+
+(* selecting by coordinate value: if the coordinate values are distinct, the element selected by the n-th
+   value is the denotation (C01) of the variable at index n along that axis.
+   Partial in the sense of the assumptions: label lookup itself is xarray's; `sel_label` is its
+   specification (look the label up, slice at the position found). *)
+Theorem C19_sel_returns_element_partial :
+  forall (body : mfunc -> env -> result (list val)) p inputs user den o (a : nd str) q labels n v,
+  denote_run body p inputs user = Ok den -> dict_get (d_out den) o = Some (VA a) ->
+  NoDup labels -> nth_error labels n = Some v ->
+  sel_label a q labels v = nd_index a (slice_key (length (shp a)) q n).
+Proof. intros body p inputs user den o a q labels n v _ _. exact (sel_label_nth a q labels n v). Qed.
+Print Assumptions C19_sel_returns_element_partial.
+
+(* ---------- the part of the property that the code does not satisfy ---------- *)
+(* Full statement (false):  forall c, valid c = true -> spec_ok c (run c) = true.
+   For kind 1 cases (selection by the value of a zipped coordinate) the faithful model - the zipped
+   coordinate is an object array of tuples, which xarray cannot index - contradicts "selecting by
+   coordinate value returns the element": known finding C19-zipped-coordinate-not-selectable. *)
+Definition zsel_witness (kind : nat) : case :=
+  {| c_funcs := [ {| fname := s "f"; fouts := [s "y"]; fparams := [s "x"; s "z"]; fbound := []; fdefaults := [];
+                     fspec := Some {| ins := [ {| aname := s "x"; axes := [Some (s "i")] |};
+                                               {| aname := s "z"; axes := [Some (s "i")] |} ];
+                                      outs := [ {| aname := s "y"; axes := [Some (s "i")] |} ] |};
+                     fint := []; fret := [] |} ];
+     c_inputs := [ (s "x", VA {| shp := [2]; dat := [s "x_0"; s "x_1"] |});
+                   (s "z", VA {| shp := [2]; dat := [s "z_0"; s "z_1"] |}) ];
+     c_internal := []; c_li := true; c_kind := kind |}.
+
+Theorem C19_sel_zipped_refuted :
+  exists c, valid c = true /\ c_kind c = 1 /\ spec_ok c (run c) = false.
+Proof. exists (zsel_witness 1). vm_compute. repeat split. Qed.
+Print Assumptions C19_sel_zipped_refuted.
+
+(* non-vacuity of the executable statement: the same request satisfies everything else (kind 0) *)
+Example C19_example_label_ok :
+  valid (zsel_witness 0) = true /\ spec_ok (zsel_witness 0) (run (zsel_witness 0)) = true.
+Proof. vm_compute. split; reflexivity. Qed.
+
+(* non-vacuity of the hypotheses: x[i], z[i] -> y[i] ; y[i], u[j] -> w[i, j] ; w[i, :] -> r[i] *)
+Definition ex_specs : list mapspec :=
+  [ {| ins := [ {| aname := s "x"; axes := [Some (s "i")] |}; {| aname := s "z"; axes := [Some (s "i")] |} ];
+       outs := [ {| aname := s "y"; axes := [Some (s "i")] |} ] |};
+    {| ins := [ {| aname := s "y"; axes := [Some (s "i")] |}; {| aname := s "u"; axes := [Some (s "j")] |} ];
+       outs := [ {| aname := s "w"; axes := [Some (s "i"); Some (s "j")] |} ] |};
+    {| ins := [ {| aname := s "w"; axes := [Some (s "i"); None] |} ];
+       outs := [ {| aname := s "r"; axes := [Some (s "i")] |} ] |} ].
+
+Example C19_example_hypotheses :
+  let inputs := [s "x"; s "z"; s "u"] in
+  let outputs := [s "r"; s "w"; s "y"] in
+  NoDup (out_names ex_specs) /\ consistent (all_aspecs ex_specs) = true
+  /\ one_dimensional ex_specs (s "x") /\ one_dimensional ex_specs (s "z")
+  /\ In (s "x") (carried (trace_fuel ex_specs) ex_specs (s "r") (s "i"))
+  /\ In (s "z") (carried (trace_fuel ex_specs) ex_specs (s "r") (s "i"))
+  /\ (forall raw, coords_raw_of ex_specs inputs outputs true (s "r") = Ok raw -> NoDup (map co_name raw))
+  /\ coords_of ex_specs inputs outputs true (s "w")
+     = Ok [ {| co_name := s "x:z"; co_axes := [s "i"]; co_srcs := [s "x"; s "z"] |};
+            {| co_name := s "u"; co_axes := [s "j"]; co_srcs := [s "u"] |} ]
+  /\ dims_of ex_specs (s "w") = Ok [s "i"; s "j"].
+Proof.
+  cbv zeta. repeat split.
+  - apply nodup_str_NoDup. reflexivity.
+  - intros a Ha E. vm_compute in Ha. repeat (destruct Ha as [<-|Ha]; [try discriminate E; reflexivity|]). destruct Ha.
+  - intros a Ha E. vm_compute in Ha. repeat (destruct Ha as [<-|Ha]; [try discriminate E; reflexivity|]). destruct Ha.
+  - vm_compute. auto.
+  - vm_compute. auto.
+  - intros raw H. vm_compute in H. injection H as <-. apply nodup_str_NoDup. reflexivity.
+Qed.
